@@ -27,7 +27,7 @@ ASSUMPTIONS = [
     'limit_rows with on_error=drop: both readings (limit then drop / drop then limit) are accepted - undocumented',
     'cells containing a carriage return are excluded from generation (known finding: tabulator\'s text loader '
     'normalises CR / CRLF inside quoted cells to LF); the finding itself is re-checked from replays/C13/crlf-in-cell.json',
-    'files are UTF-8 and the encoding is passed explicitly (chardet guessing is not under test) except for the ASCII class',
+    'the encoding (UTF-8, UTF-8 with BOM, UTF-16, Latin-1) is passed explicitly (chardet guessing is not under test) except for the ASCII class',
     'all data lines have as many cells as the header; headers are non-blank without edge whitespace',
     'with strip=True a cell with ASCII edge whitespace may come back stripped of all edge whitespace (str.strip)',
     'cast_strategy=schema: the reference parse of a cell is tableschema.Field.cast_value with the *emitted* field descriptor',
@@ -76,6 +76,14 @@ def small_case(draw):
          'name': draw(st.sampled_from([None, 'given-name'])),
          'dedup': draw(st.booleans()) if dup else draw(st.sampled_from([False, False, True])),
          'dedup_cs': draw(st.booleans()), 'dedup_fmt': draw(st.sampled_from([None, None, '_%s', ' (%s)']))}
+    if not plain:
+        # the file's encoding is passed to load explicitly (BOM-carrying and single-byte encodings included)
+        enc = draw(st.sampled_from(['utf-8', 'utf-8', 'utf-8', 'utf-8-sig', 'utf-16', 'latin-1']))
+        try:
+            '\n'.join(headers + [x for r in rows for x in r]).encode(enc)
+        except UnicodeEncodeError:
+            enc = 'utf-8'
+        c['encoding'] = enc
     return c
 
 
@@ -147,20 +155,23 @@ def check(case, ctx):
     classes = [c['size'], 'infer:%s' % c['infer'], 'cast:%s' % c['cast']]
     d = ctx.tmpdir()
     path = os.path.join(d, 'table.csv')
-    with open(path, 'w', newline='', encoding='utf-8') as f:
+    enc = c.get('encoding', 'utf-8')
+    with open(path, 'w', newline='', encoding=enc) as f:
         w = csv.writer(f, delimiter=c['dialect']['delimiter'], lineterminator=c['dialect']['lineterminator'],
                        quotechar='"', doublequote=True, quoting=csv.QUOTE_MINIMAL)
         w.writerow(c['headers'])
         w.writerows(c['rows'])
     # independent pass over the same file
-    with open(path, newline='', encoding='utf-8') as f:
+    with open(path, newline='', encoding=enc) as f:
         ref = list(csv.reader(f, delimiter=c['dialect']['delimiter'], quotechar='"', doublequote=True))
     ref_headers, ref_rows = ref[0], ref[1:]
     assert ref_headers == c['headers'] and ref_rows == c['rows'], 'harness: csv writer/reader disagree'
     kw = {}
     if not c['plain']:
         kw.update(delimiter=c['dialect']['delimiter'], quotechar='"', doublequote=True, skipinitialspace=False,
-                  lineterminator=c['dialect']['lineterminator'], encoding='utf-8')
+                  lineterminator=c['dialect']['lineterminator'], encoding=enc)
+        if enc != 'utf-8':
+            classes.append('encoding:' + enc)
     if c['strip'] is not None:
         kw['strip'] = c['strip']
     if c['limit'] is not None:
